@@ -439,3 +439,62 @@ Example C01_compile_correct_f2_instance :
   | _, _ => False
   end.
 Proof. vm_compute. repeat split; reflexivity. Qed.
+
+(* ==== fragment F3w: F2a plus While loops at the top level of main ====
+   cards of main: a statement of F2a, or  While e s  with e an expression of F1 and s a statement of
+   F2a (C01SimDefs3.in_f3).  Runs are no longer bounded by the program text, so the theorem has the
+   shape of compile_correct itself: there is a budget N0 from which on the run of the compiled program
+   has the outcome kind and the globals the reference semantics gives (a smaller budget ends in
+   Timeout, the resource side).  A program whose reference evaluation does not finish within [fuel]
+   (eval_program = PFuel) is outside the claim, as in compile_correct. *)
+From Cao Require C01SimDefs3 C01SimF3.
+
+Theorem C01_compile_correct_f3 :
+  forall (F : Vm.fops) (bld : Vm.build) (M : module) (B : Compiler.compiled) (fuel : nat) (host : list str) (o : obs),
+    C01SimDefs3.in_f3 M = true ->
+    C01SimDefs.handles_inj (C01SimDefs3.main_names3 (C01SimDefs.main_cards M)) = true ->
+    C01SimDefs3.depth_ok3 (C01SimDefs.main_cards M) = true ->
+    Compiler.compile M CompilerProofs.default_options = Compiler.COk B ->
+    (N.of_nat (List.length (Compiler.p_ids B)) < Bits.two32)%N ->
+    (N.of_nat (List.length (Compiler.p_bytecode B)) < 2147483648)%N ->
+    eval_program fuel M host = PObs o ->
+    exists N0 : nat, forall budget : nat, N0 <= budget ->
+      let r := Vm.run F bld budget (C15Link.to_vm B) Vm.fresh_state in
+      C01SimDefs.vm_kind (fst r) = Some (ob_kind o) /\
+      forall n, C01SimDefs.no_collision (C01SimDefs3.main_names3 (C01SimDefs.main_cards M)) n ->
+        option_map C01SimDefs.vm_tree (Vm.read_var_by_name (C15Link.to_vm B) (snd r) n) = assoc n (ob_globals o).
+Proof. exact C01SimF3.compile_correct_f3. Qed.
+Print Assumptions C01_compile_correct_f3.
+
+(* an instance: a loop that triples x until it passes 1000, a loop whose body is a conditional, a loop
+   that is never entered; 119 dispatches are needed, so budget 120 is the smallest that works *)
+Definition f3_example : module :=
+  prog [("main", fn [] [CSetGlobalVar (s "x") (CScalarInt 1);
+                        CBin BWhile (CBin BLess (CReadVar (s "x")) (CScalarInt 1000))
+                          (CSetGlobalVar (s "x") (CBin BMul (CReadVar (s "x")) (CScalarInt 3)));
+                        CSetGlobalVar (s "y") (CScalarInt 0);
+                        CBin BWhile (CBin BNotEquals (CReadVar (s "y")) (CScalarInt 7))
+                          (CTri TIfElse (CBin BLess (CReadVar (s "y")) (CScalarInt 4))
+                             (CSetGlobalVar (s "y") (CBin BAdd (CReadVar (s "y")) (CScalarInt 2)))
+                             (CSetGlobalVar (s "y") (CBin BAdd (CReadVar (s "y")) (CScalarInt 3))));
+                        CBin BWhile CScalarNil (CSetGlobalVar (s "never") (CScalarInt 1))])].
+Example C01_compile_correct_f3_instance :
+  match Compiler.compile f3_example CompilerProofs.default_options, eval_program 300 f3_example [] with
+  | Compiler.COk B, PObs o =>
+      C01SimDefs3.in_f3 f3_example = true /\
+      C01SimDefs.handles_inj (C01SimDefs3.main_names3 (C01SimDefs.main_cards f3_example)) = true /\
+      C01SimDefs3.depth_ok3 (C01SimDefs.main_cards f3_example) = true /\
+      (N.of_nat (List.length (Compiler.p_ids B)) <? Bits.two32)%N = true /\
+      (N.of_nat (List.length (Compiler.p_bytecode B)) <? 2147483648)%N = true /\
+      (ob_kind o, ob_globals o) = (KOk, [(s "x", TrInt 2187); (s "y", TrInt 7)]) /\
+      (let r := Vm.run no_floats Vm.Debug 400 (C15Link.to_vm B) Vm.fresh_state in
+       C01SimDefs.vm_kind (fst r) = Some (ob_kind o) /\
+       map (fun n => option_map C01SimDefs.vm_tree (Vm.read_var_by_name (C15Link.to_vm B) (snd r) n))
+           [s "x"; s "y"; s "never"]
+       = map (fun n => assoc n (ob_globals o)) [s "x"; s "y"; s "never"]) /\
+      (* the budget matters: one unit too few is a Timeout *)
+      fst (Vm.run no_floats Vm.Debug 120 (C15Link.to_vm B) Vm.fresh_state) = Vm.OOk /\
+      C01SimDefs.vm_kind (fst (Vm.run no_floats Vm.Debug 119 (C15Link.to_vm B) Vm.fresh_state)) = Some (KErr (EOther 9))
+  | _, _ => False
+  end.
+Proof. vm_compute. repeat split; reflexivity. Qed.
